@@ -24,6 +24,10 @@ pub enum StopCase {
     /// wall-clock latency of `stop` through the real binary on a given position: `go depth d`, `stop` after
     /// `stop_after_ms`, the answer must arrive within 10 s (a generous bound: the property says "promptly")
     Latency { fen: String, depth: u8, stop_after_ms: u16 },
+    /// a game record that ends in a forced repetition: after `start` + `moves` the side to move has exactly one legal
+    /// move, and it is the move the root repetition filter removes. Sweep of stop instants as in `Sweep`, and
+    /// (`binary`) `go infinite` + `stop` / `go movetime 1` through the real executable.
+    Cycle { start: String, moves: Vec<String>, depth: u8, warm: bool, binary: bool },
 }
 
 pub struct C07;
@@ -106,6 +110,49 @@ impl C07 {
         if n < d1_polls {
             ev.class("stop_before_first_iteration_completes");
             ev.nontrivial(mix(fp_pos(p) ^ mix(n)), || json!({"position": p.fen4(), "stop_after_polls": n, "polls_for_depth_1": d1_polls, "answer": best}));
+        }
+        Ok(())
+    }
+
+    /// all stop instants 0..=64 and a geometric sample beyond, on the game `start` + `moves` (moves in the record)
+    fn sweep(&self, start: &Pos, moves: &[RMove], depth: u8, warm: bool, ev: &mut Ev) -> Result<(), Fail> {
+        let mut p = start.clone();
+        // the game as the UCI layer would hold it: start position + moves in the record
+        let mut g = Game::new(&start.fen6()).map_err(|e| Fail::new("sane-position-not-importable", e.to_string()))?;
+        for m in moves {
+            let Some(em) = eng::find_legal(&mut g, &m.uci()) else {
+                return Err(Fail::new("legal-move-not-offered", format!("{} in {}", m.uci(), g.fen())));
+            };
+            g.push_history(em);
+            p = p.make(*m);
+        }
+        let p = &p;
+        let mut base = srch::new_table();
+        if warm {
+            let _ = stopped_search(&g, &mut base, 2, -1).map_err(|e| Fail::new("panic", e))?;
+            ev.class("warm_table_sweeps");
+        }
+        // counting runs: polls for depth 1 and for the full depth
+        let mut t = base.clone();
+        let (_, d1, _) = stopped_search(&g, &mut t, 1, -1).map_err(|e| Fail::new("panic", e))?;
+        let mut t = base.clone();
+        let (_, total, _) = stopped_search(&g, &mut t, depth, -1).map_err(|e| Fail::new("panic", e))?;
+        let mut ns: Vec<u64> = (0..=64).collect();
+        let mut x = 65f64;
+        while (x as u64) < total + 3 && ns.len() < 120 {
+            ns.push(x as u64);
+            x *= 1.4;
+        }
+        ev.class("positions_swept");
+        for n in ns {
+            if let Err(f) = self.one(p, &g, &base, depth, n, d1, ev) {
+                // a failure that may depend on the game record is replayed with the record, not from the bare position
+                return Err(if moves.is_empty() {
+                    f
+                } else {
+                    f.with_case(serde_json::to_value(StopCase::Cycle { start: start.fen6(), moves: moves.iter().map(|m| m.uci()).collect(), depth, warm, binary: false }).unwrap())
+                });
+            }
         }
         Ok(())
     }
@@ -194,6 +241,34 @@ impl Prop for C07 {
                 report(case, f);
             }
         }
+        // records ending in a forced repetition (perpetual-check roots and their colour mirrors, with and without one
+        // earlier turn of the cycle in the record)
+        let mut k = LATENCY_CASES.len() as u64;
+        for root in crate::props::hist::PERPETUAL {
+            for mirrored in [false, true] {
+                let Ok(p0) = Pos::from_fen(root) else { continue };
+                let st = if mirrored { p0.mirror() } else { p0 };
+                let Some(c) = forced_cycle(&st) else { continue };
+                for pre in [false, true] {
+                    k += 1;
+                    if !ctx.owns(k) {
+                        continue;
+                    }
+                    let mut moves: Vec<String> = Vec::new();
+                    if pre {
+                        moves.extend(c[..4].iter().map(|m| m.uci()));
+                    }
+                    moves.extend(c.iter().map(|m| m.uci()));
+                    for (depth, warm) in [(2u8, false), (3, true), (4, false)] {
+                        let case = StopCase::Cycle { start: st.fen6(), moves: moves.clone(), depth, warm, binary: depth == 3 };
+                        ctx.note_inflight("C07", &case);
+                        if let Err(f) = self.check(ctx, &case, ev) {
+                            report(case, f);
+                        }
+                    }
+                }
+            }
+        }
     }
 
     fn id(&self) -> &'static str {
@@ -201,7 +276,7 @@ impl Prop for C07 {
     }
 
     fn rule(&self) -> String {
-        "Cases: end positions of generated walks, fresh or warm table (warm = after a depth-2 search of the same position). In-process the node-entry hook flips the stop flag after exactly N polls, N enumerated exhaustively 0..=64 and then geometrically (x1.4) up to the poll count of the full depth-limited search (depth 3-4), one search per N: the result must be a move legal in the reference model whenever the model has one (None only for checkmate/stalemate roots), and the hook must count 0 node entries after the flip; for a sample of stop instants every cached child of the root is then searched (depth 1-2) with the table the stopped search left behind and must get a legal answer too. Five fixed boards (start, Kiwipete, 5+5 queens, 8+8 queens, 9+9 queens) get `go depth d`, `stop` after 150 ms through the real binary and must answer within 10 s. About 1 case in 12 drives the real binary: `go infinite` immediately followed by `stop`, `go movetime 0..10`, or VERIF_STOP_AFTER_POLLS=N with `go depth 4`; `bestmove none` with legal moves available is the violation. evaluations = stopped searches. Non-trivial: N smaller than the polls a depth-1 iteration needs (the window in which no iteration has completed), and every binary session; distinct by (position, N).".into()
+        "Cases: end positions of generated walks, fresh or warm table (warm = after a depth-2 search of the same position). In-process the node-entry hook flips the stop flag after exactly N polls, N enumerated exhaustively 0..=64 and then geometrically (x1.4) up to the poll count of the full depth-limited search (depth 3-4), one search per N: the result must be a move legal in the reference model whenever the model has one (None only for checkmate/stalemate roots), and the hook must count 0 node entries after the flip; for a sample of stop instants every cached child of the root is then searched (depth 1-2) with the table the stopped search left behind and must get a legal answer too. Twelve game records that end in a forced repetition (three perpetual-check roots and their colour mirrors, the cycle a b a' b' a played once or after one earlier turn, so that the side to move has a single legal move and it is the one the root repetition filter removes) get the same sweep at depths 2-4 and, through the real binary, `go infinite` + `stop`, `go movetime 0/1` and an exhausted clock. Five fixed boards (start, Kiwipete, 5+5 queens, 8+8 queens, 9+9 queens) get `go depth d`, `stop` after 150 ms through the real binary and must answer within 10 s. About 1 case in 12 drives the real binary: `go infinite` immediately followed by `stop`, `go movetime 0..10`, or VERIF_STOP_AFTER_POLLS=N with `go depth 4`; `bestmove none` with legal moves available is the violation. evaluations = stopped searches. Non-trivial: N smaller than the polls a depth-1 iteration needs (the window in which no iteration has completed), and every binary session; distinct by (position, N).".into()
     }
 
     fn assumptions(&self) -> Vec<String> {
@@ -287,38 +362,49 @@ impl Prop for C07 {
                     ev.skip("construction did not yield a sane position");
                     return Ok(());
                 };
-                let p = &r.end;
-                if !search_friendly(p) {
+                if !search_friendly(&r.end) {
                     ev.skip(SKIP_HEAVY);
                     return Ok(());
                 }
-                // the game as the UCI layer would hold it: start position + moves in the record
-                let mut g = Game::new(&r.start.fen6()).map_err(|e| Fail::new("sane-position-not-importable", e.to_string()))?;
-                for m in &r.moves {
-                    let Some(em) = eng::find_legal(&mut g, &m.uci()) else {
-                        return Err(Fail::new("legal-move-not-offered", format!("{} in {}", m.uci(), g.fen())));
+                self.sweep(&r.start, &r.moves, *depth, *warm, ev)
+            }
+            StopCase::Cycle { start, moves, depth, warm, binary } => {
+                let st = Pos::from_fen(start).map_err(|e| Fail::new("harness", e))?;
+                let mut p = st.clone();
+                let mut ms = Vec::new();
+                for t in moves {
+                    let Some(m) = p.legal().into_iter().find(|m| &m.uci() == t) else {
+                        return Err(Fail::new("harness", format!("cycle move {} not legal in {}", t, p.fen4())));
                     };
-                    g.push_history(em);
+                    ms.push(m);
+                    p = p.make(m);
                 }
-                let mut base = srch::new_table();
-                if *warm {
-                    let _ = stopped_search(&g, &mut base, 2, -1).map_err(|e| Fail::new("panic", e))?;
-                    ev.class("warm_table_sweeps");
-                }
-                // counting runs: polls for depth 1 and for the full depth
-                let mut t = base.clone();
-                let (_, d1, _) = stopped_search(&g, &mut t, 1, -1).map_err(|e| Fail::new("panic", e))?;
-                let mut t = base.clone();
-                let (_, total, _) = stopped_search(&g, &mut t, *depth, -1).map_err(|e| Fail::new("panic", e))?;
-                let mut ns: Vec<u64> = (0..=64).collect();
-                let mut x = 65f64;
-                while (x as u64) < total + 3 && ns.len() < 120 {
-                    ns.push(x as u64);
-                    x *= 1.4;
-                }
-                ev.class("positions_swept");
-                for n in ns {
-                    self.one(p, &g, &base, *depth, n, d1, ev)?;
+                ev.class("records_ending_in_a_forced_repetition");
+                self.sweep(&st, &ms, *depth, *warm, ev)?;
+                if *binary {
+                    let legal: Vec<String> = p.legal().iter().map(|m| m.uci()).collect();
+                    for go in ["go infinite", "go movetime 1", "go movetime 0", "go wtime 10 btime 10 winc 0 binc 0"] {
+                        let mut sess = Session::start(&[]).map_err(|e| Fail::new("harness", e))?;
+                        sess.send(&format!("position fen {} moves {}", st.fen6(), moves.join(" ")));
+                        sess.send(go);
+                        if go == "go infinite" {
+                            sess.send("stop");
+                        }
+                        let out = sess.read_until(|l| l.starts_with("bestmove"), 8000);
+                        ev.eval();
+                        ev.class("uci_stopped_searches_at_the_end_of_a_forced_repetition");
+                        let Some(lines) = out else {
+                            let tail = sess.transcript_tail(8);
+                            sess.kill();
+                            return Err(Fail::new("no-bestmove-after-stop", format!("{} moves {} + {:?}: no bestmove within 8 s ({})", st.fen6(), moves.join(" "), go, tail)));
+                        };
+                        let bm = uci::bestmove_of(&lines).unwrap_or_default();
+                        sess.quit();
+                        if !legal.contains(&bm) {
+                            let sig = if bm == "none" { "stopped-search-returns-no-move" } else { "stopped-search-returns-illegal-move" };
+                            return Err(Fail::new(sig, format!("position fen {} moves {} + {:?}: bestmove {} ; legal {:?}", st.fen6(), moves.join(" "), go, bm, legal)));
+                        }
+                    }
                 }
                 Ok(())
             }
